@@ -152,8 +152,14 @@ class FortranExpressionMapper(StringifyMapper):
 
     def map_logical_not(self, expr, enclosing_prec):
         from pymbolic.mapper.stringifier import PREC_UNARY
+        from pymbolic.primitives import LogicalNot
+        child = self.rec(expr.child, PREC_UNARY)
+        if isinstance(expr.child, LogicalNot):
+            # ".not. .not. a" is not valid Fortran: the operand of .not. is a
+            # level-4 expression, so a nested negation needs parentheses.
+            child = "(%s)" % child
         return self.parenthesize_if_needed(
-                ".not. " + self.rec(expr.child, PREC_UNARY),
+                ".not. " + child,
                 enclosing_prec, PREC_UNARY)
 
     def map_logical_or(self, expr, enclosing_prec):
